@@ -138,6 +138,8 @@ class Tr:
             if op in ("Add", "Sub", "Mult", "Div"):
                 s = {"Add": "+", "Sub": "-", "Mult": "*", "Div": "/"}[op]
                 return f"({as_f64(a, ta, e)} {s} {as_f64(b, tb, e)})%float", "f64"
+        if ta == "path" and tb == "str" and op == "Div":
+            return b, "str"          # out_dir / name : only the file name matters
         if ta == "str" and tb == "str" and op == "Add":
             return f"({a} ++ {b})%string", "str"
         fail(e, f"binary op {op} on {ta},{tb}")
@@ -190,6 +192,28 @@ class Tr:
         if ta != tb:
             fail(e, f"ifexp branches {ta},{tb}")
         return f"(if {t} then {a} else {b})", ta
+
+    def e_JoinedStr(self, e):
+        parts = []
+        for v in e.values:
+            if isinstance(v, ast.Constant) and isinstance(v.value, str):
+                parts.append('"' + v.value.replace('"', '""') + '"%string')
+            elif isinstance(v, ast.FormattedValue) and v.format_spec is None and v.conversion == -1:
+                t, ty = self.expr(v.value)
+                if ty == "str":
+                    parts.append(t)
+                elif ty == "int":
+                    parts.append(f"(str_of_Z {t})")
+                else:
+                    fail(e, f"f-string component of type {ty}")
+            else:
+                fail(e, "f-string format spec / conversion")
+        if not parts:
+            return '""%string', "str"
+        out = parts[0]
+        for q in parts[1:]:
+            out = f"({out} ++ {q})%string"
+        return out, "str"
 
     def e_Tuple(self, e):
         parts = [self.expr(v) for v in e.elts]
@@ -367,13 +391,27 @@ class Tr:
         if (isinstance(s, ast.Expr) and isinstance(s.value, ast.Call)
                 and isinstance(s.value.func, ast.Name) and s.value.func.id in getattr(self.c, "effects", ())):
             # an observable effect (e.g. madvise): recorded, in order, in the result
-            args = [self.expr(a)[0] for a in s.value.args]
+            args = [t for t, ty in (self.expr(a) for a in s.value.args
+                                     if not (isinstance(a, ast.Name) and a.id not in self.c.env)) ]
             self.c.fresh += 1
             cn = f"effect_{self.c.fresh}"
             self.c.effect_vars = getattr(self.c, "effect_vars", []) + [cn]
             body = self.block(rest)
             self.c.effect_vars = self.c.effect_vars[:-1]
             return f"let {cn} := ({', '.join(args)}) in\n  {body}"
+        if (isinstance(s, ast.With) and len(s.items) == 1 and isinstance(s.items[0].context_expr, ast.Call)
+                and isinstance(s.items[0].context_expr.func, ast.Name)
+                and s.items[0].context_expr.func.id == "open" and "open" in getattr(self.c, "effects", ())):
+            # a file written by this statement: recorded as an effect (its name)
+            t, ty = self.expr(s.items[0].context_expr.args[0])
+            if ty != "str":
+                fail(s, "open() of a non-name")
+            self.c.fresh += 1
+            cn = f"effect_{self.c.fresh}"
+            self.c.effect_vars = getattr(self.c, "effect_vars", []) + [cn]
+            body = self.block(rest)
+            self.c.effect_vars = self.c.effect_vars[:-1]
+            return f"let {cn} := {t} in\n  {body}"
         if isinstance(s, ast.If):
             t, tt = self.expr(s.test)
             if tt != "bool":
@@ -451,7 +489,7 @@ class Tr:
 
 # ==================================================================== targets
 COQTY = {"int": "Z", "u64": "Z", "f64": "float", "bool": "bool", "str": "string",
-         "arr": "list Z", "arr_u64": "list Z", "optint": "option Z", "optf": "option float"}
+         "arr": "list Z", "arr_u64": "list Z", "optint": "option Z", "optf": "option float", "path": "string"}
 
 
 def find_func(tree, qual):
@@ -576,6 +614,40 @@ def gen_mem():
     return "\n\n".join(out) + "\n"
 
 
+def translate_loop_body(src_file, qual, coq_name, params, funcs, effects=()):
+    """the body of the FIRST for-loop of a function, as a function of the loop variables and
+    the enclosing function's parameters; its value is the list of recorded effects"""
+    tree = ast.parse((REPO / src_file).read_text())
+    fn = find_func(tree, qual)
+    loop = next((n for n in ast.walk(fn) if isinstance(n, ast.For)), None)
+    if loop is None:
+        raise Unsupported(f"{qual}: no for loop")
+    env = {p: (p, t) for p, t in params}
+    ctx = Ctx(env, "effects", funcs, {}, False)
+    ctx.effects = tuple(effects)
+    tr = Tr(ctx)
+    orig = tr.block
+
+    def block(sts):
+        if not sts:
+            return "[" + "; ".join(getattr(ctx, "effect_vars", [])) + "]"
+        return orig(sts)
+    tr.block = block
+    body = tr.block(list(loop.body))
+    ps = " ".join(f"({p} : {COQTY[t]})" for p, t in params)
+    return f"Definition {coq_name} {ps} :=\n  {body}."
+
+
+def gen_mr():
+    """bblean/multiround.py: the names of the files written by _save_bufs_and_mol_idxs"""
+    out = [HEADER.format(src="bblean/multiround.py")]
+    out.append(translate_loop_body(
+        "bblean/multiround.py", "_save_bufs_and_mol_idxs", "save_names",
+        [("out_dir", "path"), ("label", "str"), ("round_idx", "int"), ("dtype", "str")],
+        {}, effects=["_numpy_streaming_save", "open"]))
+    return "\n\n".join(out) + "\n"
+
+
 def gen_util():
     """bblean/cli.py: parse_num_per_batch (nested in _fps_from_smiles)"""
     out = [HEADER.format(src="bblean/cli.py")]
@@ -623,6 +695,7 @@ def main():
         attempt("GMerges", lambda: (_ for _ in ()).throw(Unsupported("GSim failed")))
     attempt("GMem", gen_mem)
     attempt("GUtil", gen_util)
+    attempt("GMr", gen_mr)
     for k, v in status.items():
         print(f"translate {k}: {v}")
     return 0 if all(v == "ok" for v in status.values()) else 1
